@@ -180,7 +180,7 @@ func runC14(r *simcore.Run) {
 	e.start()
 	if sc.Interleave {
 		// the per-service goroutines of makeConfig interleave statement by statement
-		e.d.Sim.Activate("consul:*ServiceMonitor.makeConfig", "consul:*ServiceMonitor.serviceConfig")
+		e.d.Sim.Activate("consul:*ServiceMonitor.makeConfig", "consul:*ServiceMonitor.serviceConfig", "consul:routecmd", "consul:expressible", "route:Parse", "route:parseRoute")
 	}
 	next := 0
 	e.d.AddSource(func() []simcore.Event {
